@@ -191,6 +191,9 @@ func (w *simWorld) exec(a Action) (outcome string) {
 		w.app.Commit()
 		w.height++
 		w.time++
+		if a.TimeStep > 1 {
+			w.time += a.TimeStep - 1
+		}
 		w.begin()
 		return "ok"
 	case a.Mod != nil:
